@@ -42,6 +42,12 @@ def main():
         dtext = dtext.replace(agent_wt, wt)
         dpath = os.path.join(wt, "_demo.py")
         open(dpath, "w").write(dtext)
+        # helper modules the demo imports (e.g. a brute-force oracle) travel with it
+        import glob
+
+        helpers = [h for h in glob.glob(os.path.join(src, "*.py")) if not os.path.basename(h).startswith("demo_")]
+        for h in helpers:
+            shutil.copy(h, os.path.join(wt, os.path.basename(h)))
         r = sh(f"{env} timeout 600 /venv/bin/python _demo.py")
         rec["ran"]["demo_on_clean_tree"] = {"rc": r.returncode, "tail": (r.stdout + r.stderr)[-300:]}
         r = sh(f"git -C {wt} apply {os.path.abspath(patch)}")
@@ -54,6 +60,8 @@ def main():
         r = sh(f"{env} timeout 600 /venv/bin/python _demo.py")
         rec["ran"]["demo_with_patch"] = {"rc": r.returncode, "tail": (r.stdout + r.stderr)[-400:]}
         os.unlink(dpath)
+        for h in helpers:
+            os.unlink(os.path.join(wt, os.path.basename(h)))
         ev = tempfile.mkdtemp(prefix="pyhms-mut-ev-", dir="/tmp")
         rec["checks"] = {}
         for p in props:
@@ -76,6 +84,8 @@ def main():
         os.makedirs(dst, exist_ok=True)
         shutil.copy(patch, os.path.join(dst, "patch.diff"))
         shutil.copy(demo, os.path.join(dst, "demo.py"))
+        for h in helpers:
+            shutil.copy(h, os.path.join(dst, os.path.basename(h)))
         notes = os.path.join(src, "notes.md")
         if os.path.exists(notes):
             shutil.copy(notes, os.path.join(dst, "agent_notes.md"))
